@@ -533,3 +533,52 @@ Theorem gen_up_upscale_error_assert : forall sds out cds : list nat, length out 
   gen_up_upscale_error out cds sds = None.
 Proof. exact GenUpscaleErrEq.gen_up_upscale_error_assert. Qed.
 Print Assumptions gen_up_upscale_error_assert.
+
+(* The ITERATIVE stages regenerated from the source as well (generated/GenIhu.v, tools/gen_ihu.py): next_outlet, outlet_pix,
+   upscale_check, new_outlet, ihu_optimize_rivlen, ihu_minimize_error, core._d8_idx / _upstream_d8_idx and the driver loop of
+   `ihu` ARE the definitions of theories/Ihu.v (None = the model's error flag; the 10^6-step range of ihu_minimize_error is
+   translated as written and proved to agree with the model's cut-off after nc + 2 steps).  ihu_relocate_outlets is not
+   translated: it enters the generated driver as a parameter, required to behave like the model's `relocate`.  The hypothesis
+   nomv_cell (the stand-in cell computed for a missing downstream pixel is never the pixel's own cell) holds in particular when
+   no pixel of the network drains to a missing pixel. *)
+From PF Require Import GenIhuBaseEq GenIhuCheckEq GenIhuOptEq GenIhuMinEq GenIhuDrvEq.
+From PFG Require Import GenIhu.
+Local Open Scope nat_scope.
+Theorem gen_ihu_upscale_check_eq : forall (sds : list nat) (cs nrow ncol : nat) (out cds : list nat),
+  length out = nrow * ncol -> length cds = nrow * ncol -> (Z.of_nat (nrow * ncol) <= 2147483648)%Z ->
+  gen_ihu_upscale_check (S (length sds)) out cds sds (Z.of_nat cs) =
+  (let c := upscale_check sds cs nrow ncol out cds in if c_ok c then Some (c_valid c, c_st c, c_fix c, c_short c) else None).
+Proof. exact GenIhuCheckEq.gen_ihu_upscale_check_eq. Qed.
+Print Assumptions gen_ihu_upscale_check_eq.
+Theorem gen_ihu_optimize_rivlen_eq : forall (sds : list nat) (upa : list Z) (subnrow : Z) (subncol cs nrow ncol : nat)
+  (valid : list bool) (short : list nat) (a : A),
+  nomv_cell sds subncol cs ncol -> a_err a = 0 -> length (a_cds a) = nrow * ncol ->
+  gen_ihu_ihu_optimize_rivlen (S (length sds)) short valid (a_st a) (a_cds a) (a_out a) sds upa (subnrow, Z.of_nat subncol)
+    (Z.of_nat nrow, Z.of_nat ncol) (Z.of_nat cs) (Z.of_nat cs) (Z.of_nat (cs * cs)) =
+  (let a' := optimize_rivlen sds upa subncol cs nrow ncol valid short a in
+   if Nat.eqb (a_err a') 0 then Some (a_cds a', a_out a', a_st a') else None).
+Proof. exact GenIhuOptEq.gen_ihu_optimize_rivlen_eq. Qed.
+Print Assumptions gen_ihu_optimize_rivlen_eq.
+Theorem gen_ihu_minimize_error_eq : forall (sds : list nat) (upa : list Z) (subnrow : Z) (subncol cs nrow ncol : nat)
+  (valid : list bool) (fixl : list nat) (poc : nat) (a : A),
+  nomv_cell sds subncol cs ncol -> a_err a = 0 -> length (a_cds a) = nrow * ncol ->
+  gen_ihu_ihu_minimize_error (S (length sds)) fixl valid (a_st a) (a_cds a) (a_out a) sds upa (subnrow, Z.of_nat subncol)
+    (Z.of_nat nrow, Z.of_nat ncol) (Z.of_nat cs) (Z.of_nat cs) (Z.of_nat (cs * cs)) (Z.of_nat poc) =
+  (let a' := minimize_error sds upa subncol cs nrow ncol fixl poc a in
+   if Nat.eqb (a_err a') 0 then Some (a_cds a', a_out a', a_st a') else None).
+Proof. exact GenIhuMinEq.gen_ihu_minimize_error_eq. Qed.
+Print Assumptions gen_ihu_minimize_error_eq.
+Theorem gen_ihu_ihu_up_ihu : forall (sds : list nat) (upa : list Z) (subnrow subncol cs : nat) (ea : list bool)
+  (reloc : list nat -> list nat -> list nat -> list nat -> list Z -> Z * Z -> Z * Z -> Z -> option (list nat * list nat * list nat))
+  (rfix : list nat -> list nat -> list nat -> list nat),
+  let nrow := cdiv subnrow cs in let ncol := cdiv subncol cs in
+  length ea <= length sds -> nomv_cell sds subncol cs ncol -> (Z.of_nat (nrow * ncol) <= 2147483648)%Z ->
+  (forall fixl cds out : list nat,
+     reloc fixl cds out sds upa (Z.of_nat subnrow, Z.of_nat subncol) (Z.of_nat nrow, Z.of_nat ncol) (Z.of_nat cs) =
+     (let a' := relocate sds upa subncol cs nrow ncol fixl {| a_cds := cds; a_out := out; a_st := nil; a_err := 0 |} in
+      if Nat.eqb (a_err a') 0 then Some (a_cds a', a_out a', rfix fixl cds out) else None)) ->
+  forall (cds out : list nat) (sh : Z * Z),
+  gen_ihu_ihu (S (length sds)) sds upa (Z.of_nat subnrow, Z.of_nat subncol) (Z.of_nat cs) 5%Z true true 2%Z (eaf ea) reloc = Some (cds, out, sh) ->
+  up_ihu sds upa subnrow subncol cs ea = (cds, out, (nrow, ncol)) /\ sh = (Z.of_nat nrow, Z.of_nat ncol).
+Proof. exact GenIhuDrvEq.gen_ihu_ihu_up_ihu. Qed.
+Print Assumptions gen_ihu_ihu_up_ihu.
